@@ -77,11 +77,15 @@ class Check(RuntimeCheck):
         mentioned = sorted(mode_of)
         ncalls = 1 + rng.below(8)
         calls = [(rng.choice(mentioned) if rng.chance(7, 8) else rng.below(8), rng.below(4)) for _ in range(ncalls)]
-        end = rng.choice(['verify', 'drop'])
+        # one family in four: the original is configured with no_verify_in_drop() right away (clones made later inherit that) and verified explicitly
+        nv = rng.chance(1, 4)
+        end = 'verify' if nv else rng.choice(['verify', 'drop'])
         endev = {'verify': scn.verify, 'drop': scn.drop}[end](0)
         mode = 'partial' if rng.chance(1, 4) else 'strict'
         def mk(name, terms, route=False, second=False):
             evs = [scn.build(0, 0, mode, tup(terms))]
+            if nv:
+                evs.append(scn.noverify(0))
             insts = [0]
             if route:
                 evs += [scn.clone(0, 1), scn.clone(1, 2)]
